@@ -19,7 +19,12 @@ Theorem c05_source_facts :
   Extracted.retry_loop_leaves =
     ["if err != nil: return"; "if !fn.notify && resp.ID != req.ID: return";
      "if err := json.Unmarshal(resp.Result, val.Interface()); err != nil: return"; "if !retry: break"]%string /\
-  Extracted.retry_loop_tail = ["vhook(""call.retry"", fn.client, req.ID, attempt)"; "time.Sleep(b.next(attempt))"]%string.
+  Extracted.retry_loop_tail = ["vhook(""call.retry"", fn.client, req.ID, attempt)"; "time.Sleep(b.next(attempt))"]%string /\
+  (* the two options that decide about reconnecting are plain setters of their own field: neither undoes the other, in
+     whatever order they are listed *)
+  Extracted.reconnect_option_bodies =
+    [("WithReconnectBackoff", ["c.reconnectBackoff = backoff{minDelay: minDelay, maxDelay: maxDelay}"]);
+     ("WithNoReconnect", ["c.noReconnect = true"])]%string.
 Proof. repeat split; reflexivity. Qed.
 
 (* redial attempts are spaced by the backoff, never a busy loop: for every attempt number (negative and beyond 2^31
